@@ -95,6 +95,19 @@ def eq(a, b):
     return a == b
 
 
+def be_uint(bs):
+    """big-endian unsigned integer of a list of byte values (harness-side spec readers)"""
+    return _sh._from_bytes(list(bs), False, True)
+
+
+def eq_mod32(a, b):
+    """a == b (mod 2^32) on the low 32 bits (lets the rewriter normalise modular sums at word level)"""
+    a2, b2 = SInt.of(a), SInt.of(b)
+    if a2.bv and b2.bv:
+        return SBool(z3.simplify(z3.Extract(31, 0, a2.e)) == z3.simplify(z3.Extract(31, 0, b2.e)))
+    return (a2 % (1 << 32)) == (b2 % (1 << 32))
+
+
 def conj(xs):
     es = []
     for x in xs:
